@@ -37,9 +37,6 @@ let judge (_input : string) (impl : string) (model : string) : verdict =
     else Mismatch "valid sfnt, but not the bytes the model predicts"
   end
   else if model = "n/a" || impl = model then Agree
-    else Mismatch "valid sfnt, but not the bytes the model predicts"
-  end
-  else if model = "n/a" || impl = model then Agree
   else Mismatch ("implementation " ^ impl ^ ", model " ^ (String.sub model 0 (min 12 (String.length model))))
 
 let tag (input : string) (out : string) : string =
